@@ -36,7 +36,7 @@ func (cx *Ctx) attrChain(r *Report) *attrKeys {
 		return nil
 	}
 	k.body = one("body", cx.stepsReaching(ch, matchCallee("io/ioutil.ReadAll", "io.ReadAll")))
-	k.decode = one("decode", cx.stepsReaching(ch, matchFnKey(w, "xml.DecodeAttributeQuery")))
+	k.decode = one("decode", cx.stepsReaching(ch, matchDecoder(w, "samlp.AttributeQueryType")))
 	k.sp = one("sp", cx.stepsReaching(ch, matchStorage("GetEntityByID")))
 	k.cert = one("cert", cx.stepsByFactory(ch, "logic", "provider.checkCertificate"))
 	k.sig = one("sig", cx.stepsByFactory(ch, "logic", "provider.verifyPostSignature"))
